@@ -80,6 +80,10 @@ func (m *Controller) isOptimizedDuringWaiting(node Node) (bool, error) {
 	if err != nil {
 		return false, err
 	}
+	if replicationStatus == nil {
+		// not a replica (any more): nothing has converged
+		return false, nil
+	}
 
 	lag := replicationStatus.GetReplicationLag()
 	if lag.Valid && lag.Float64 < float64(m.config.LowReplicationMark) {
